@@ -1,10 +1,236 @@
-//! C13: twin deployments (cw20 / native) driven in lock-step.  (filled in below)
-use crate::batch::RunResult;
+//! C13: a cw20 deployment and an otherwise identical native deployment driven in lock-step.
+//! Each step runs on the cw20 twin first; what it pulled from the caller is attached to the native call.
+
+use serde_json::json;
+
+use crate::batch::{collect, prop_stream, RunResult};
+use crate::gen::{gen_world, profile_for, Gen};
+use crate::obs::Obs;
+use crate::prng::Rng;
+use crate::refmodel::mul_div;
+use crate::run::Runner;
 use crate::types::*;
 
-pub fn one_run(_seed: u64, run: u64, _keep_log: bool) -> RunResult {
-    RunResult { run, ..Default::default() }
+fn native_cfg(cfg: &WorldCfg) -> WorldCfg {
+    let mut c = cfg.clone();
+    c.coll = Coll::Native;
+    c.allowance = None;
+    c
 }
-pub fn run_history(_cfg: &WorldCfg, _steps: &[Step], _keep_log: bool) -> RunResult {
-    RunResult::default()
+
+struct Twin {
+    a: Runner,
+    b: Runner,
+    diverged: bool,
+}
+
+fn party(r: &Runner, name: &str) -> String {
+    if name == r.w.addrs.engine {
+        "vault".into()
+    } else if name == r.w.addrs.insurance_fund {
+        "insurance_fund".into()
+    } else if name == r.w.addrs.fee_pool {
+        "fee_pool".into()
+    } else if r.w.addrs.cw20.as_deref() == Some(name) {
+        "token".into()
+    } else {
+        name.to_string()
+    }
+}
+
+fn deltas(r: &Runner, pre: &Obs, post: &Obs) -> std::collections::BTreeMap<String, i128> {
+    let mut m = std::collections::BTreeMap::new();
+    let mut names: std::collections::BTreeSet<&String> = pre.bal.keys().collect();
+    names.extend(post.bal.keys());
+    for n in names {
+        let d = post.bal(n) as i128 - pre.bal(n) as i128;
+        if d != 0 {
+            *m.entry(party(r, n)).or_insert(0) += d;
+        }
+    }
+    m
+}
+
+impl Twin {
+    fn new(cfg: &WorldCfg) -> Result<Twin, String> {
+        let a = Runner::new(cfg, "C13")?;
+        let b = Runner::new(&native_cfg(cfg), "C13")?;
+        Ok(Twin { a, b, diverged: false })
+    }
+
+    fn apply(&mut self, step: &Step) {
+        let pre_a = self.a.obs.clone();
+        let pre_b = self.b.obs.clone();
+        let undo = if step.op.is_engine_user_op() { Some((self.a.w.snapshot(), self.a.model.clone())) } else { None };
+        self.a.apply(step);
+        let (out_a, ledger_a, preq_a) = self.a.last.clone().unwrap();
+        let actor = self.a.w.resolve(&step.actor);
+        let user = step.op.is_engine_user_op();
+        if user && !out_a.ok {
+            // rejected by the cw20 twin: not forwarded (the statement's proviso is undefined); keep the clocks aligned
+            if let Some((dh, dt)) = step.clock {
+                self.b.w.advance(dh, dt);
+                self.b.obs.height = self.b.w.height();
+                self.b.obs.time = self.b.w.now();
+            }
+            self.a.ev.count("not_forwarded_rejected_by_cw20_twin");
+            return;
+        }
+        let g: U = if user { ledger_a.iter().filter(|x| x.from == actor).map(|x| x.amount).sum() } else { 0 };
+        let mut sb = step.clone();
+        sb.funds = g;
+        self.b.apply(&sb);
+        let (out_b, _, _) = self.b.last.clone().unwrap();
+        if self.diverged || !user {
+            return;
+        }
+        // ---- comparison
+        let kind = step.op.kind();
+        let d = self.a.w.d;
+        let sub: String = match &step.op {
+            Op::Open { vamm, side, margin, leverage, .. } => {
+                let n = mul_div(*margin, *leverage, d).unwrap_or(0);
+                match pre_a.position(*vamm, &actor) {
+                    None => "fresh".into(),
+                    Some(p) if p.dir == side.dir() => "increase".into(),
+                    Some(p) => {
+                        let cur = crate::run::pq_u(&preq_a, "out_whole").unwrap_or(0);
+                        if p.size != 0 && cur > n {
+                            "reduce".into()
+                        } else {
+                            "reverse".into()
+                        }
+                    }
+                }
+            }
+            _ => kind.to_string(),
+        };
+        let da = deltas(&self.a, &pre_a, &self.a.obs);
+        let db = deltas(&self.b, &pre_b, &self.b.obs);
+        let moved = !da.is_empty();
+        let fees_on = pre_a.vamms.iter().any(|v| v.toll > 0 || v.spread > 0);
+        let trader_delta = *da.get(&actor).unwrap_or(&0);
+        let flow = if trader_delta < 0 { "pays" } else if trader_delta > 0 { "receives" } else { "flat" };
+        let ev = &mut self.a.ev;
+        ev.eval(moved, &(sub.clone(), flow, fees_on, out_b.ok), || json!({"op": serde_json::to_value(&step.op).unwrap_or_default(), "sub_kind": sub, "attached_to_native_call": g.to_string(), "cw20_ok": out_a.ok, "native_ok": out_b.ok, "cw20_deltas": da.iter().map(|(k, v)| (k.clone(), v.to_string())).collect::<std::collections::BTreeMap<_, _>>()}));
+        if out_a.ok != out_b.ok {
+            let why = if out_b.err.contains("insufficient") { "funds_insufficient" } else if out_b.err.contains("excessive") { "funds_excessive" } else if out_b.err.contains("transfer failure") || out_b.err.contains("Cannot Sub") { "native_payout_failed" } else { "other" };
+            // what the position was worth: a reversal that needs a top-up is the interesting case
+            let topup = trader_delta < 0;
+            let _ = topup;
+            ev.violation("outcome_diverged", &format!("{},{}", sub, why), json!({"cw20_ok": out_a.ok, "native_ok": out_b.ok, "attached": g.to_string(), "native_error": crate::run::tail(&out_b.err, 160), "cw20_trader_delta": trader_delta.to_string()}));
+            // the native twin refused and is unchanged: roll the cw20 twin back so that the pair stays comparable
+            match undo {
+                Some((snap, model)) if out_a.ok && !out_b.ok => {
+                    self.a.w.restore(&snap);
+                    if let Some((dh, dt)) = step.clock {
+                        self.a.w.advance(dh, dt);
+                    }
+                    self.a.model = model;
+                    self.a.obs = pre_a;
+                    self.a.obs.height = self.a.w.height();
+                    self.a.obs.time = self.a.w.now();
+                    self.a.ev.count("resynchronised_after_native_refusal");
+                }
+                _ => self.diverged = true,
+            }
+            return;
+        }
+        // positions
+        for (k, pa) in self.a.obs.pos.iter() {
+            let pb = self.b.obs.pos.get(k);
+            if pb != Some(pa) {
+                ev.violation("position_diverged", &format!("{},{}", sub, if k.1 == actor { "caller" } else { "other" }), json!({"vamm": k.0, "trader": k.1, "cw20": format!("{:?}", pa), "native": format!("{:?}", pb)}));
+                self.diverged = true;
+                return;
+            }
+        }
+        if self.b.obs.pos.len() != self.a.obs.pos.len() {
+            ev.violation("position_diverged", &format!("{},extra", sub), json!({}));
+            self.diverged = true;
+            return;
+        }
+        for i in 0..self.a.obs.vamms.len() {
+            let (x, y) = (&self.a.obs.vamms[i], &self.b.obs.vamms[i]);
+            if (x.q, x.b, x.size, x.open, x.next_funding, x.cum) != (y.q, y.b, y.size, y.open, y.next_funding, y.cum) {
+                ev.violation("vamm_diverged", &sub, json!({"vamm": i, "cw20": [x.q.to_string(), x.b.to_string(), x.size.to_string()], "native": [y.q.to_string(), y.b.to_string(), y.size.to_string()]}));
+                self.diverged = true;
+                return;
+            }
+        }
+        if let (Some(x), Some(y)) = (&self.a.obs.eng, &self.b.obs.eng) {
+            if (x.oi, x.bad_debt) != (y.oi, y.bad_debt) {
+                ev.violation("vamm_diverged", &format!("{},engine_state", sub), json!({"cw20": [x.oi.to_string(), x.bad_debt.to_string()], "native": [y.oi.to_string(), y.bad_debt.to_string()]}));
+                self.diverged = true;
+                return;
+            }
+        }
+        if da != db {
+            let mut who = "other";
+            for (k, v) in da.iter() {
+                if db.get(k) != Some(v) {
+                    who = if *k == actor { "caller" } else if k == "vault" { "vault" } else if k == "insurance_fund" { "insurance_fund" } else if k == "fee_pool" { "fee_pool" } else { "other" };
+                    break;
+                }
+            }
+            ev.violation("delta_diverged", &format!("{},{}", sub, who), json!({"cw20": da.iter().map(|(k, v)| (k.clone(), v.to_string())).collect::<std::collections::BTreeMap<_, _>>(), "native": db.iter().map(|(k, v)| (k.clone(), v.to_string())).collect::<std::collections::BTreeMap<_, _>>(), "attached": g.to_string()}));
+            self.diverged = true;
+        }
+    }
+}
+
+fn finish(t: Twin, res: &mut RunResult) {
+    let mut a = t.a;
+    // harness errors of the native twin count too
+    for e in t.b.ev.harness_errors.iter() {
+        a.ev.harness_error(format!("native twin: {}", e));
+    }
+    a.tx_ok += t.b.tx_ok;
+    a.tx_err += t.b.tx_err;
+    a.tx_panic += t.b.tx_panic;
+    collect(res, a);
+}
+
+pub fn one_run(seed: u64, run: u64, keep_log: bool) -> RunResult {
+    let prop = "C13";
+    let mut rng = Rng::new(seed, prop_stream(prop), run);
+    let cfg = gen_world(&mut rng, prop);
+    let profile = profile_for(prop);
+    let n_steps = rng.range(profile.min_steps as u64, profile.max_steps as u64) as usize;
+    let mut res = RunResult { run, world: Some(cfg.clone()), ..Default::default() };
+    let mut t = match Twin::new(&cfg) {
+        Ok(t) => t,
+        Err(e) => {
+            res.ev.property = prop.to_string();
+            res.ev.harness_error(format!("world build failed: {}", e));
+            return res;
+        }
+    };
+    t.a.keep_log = keep_log;
+    let mut g = Gen::new(profile);
+    for _ in 0..n_steps {
+        let st = g.next(&mut t.a, &mut rng);
+        t.apply(&st);
+        res.steps.push(st);
+    }
+    finish(t, &mut res);
+    res
+}
+
+pub fn run_history(cfg: &WorldCfg, steps: &[Step], keep_log: bool) -> RunResult {
+    let mut res = RunResult { world: Some(cfg.clone()), steps: steps.to_vec(), ..Default::default() };
+    let mut t = match Twin::new(cfg) {
+        Ok(t) => t,
+        Err(e) => {
+            res.ev.property = "C13".to_string();
+            res.ev.harness_error(format!("world build failed: {}", e));
+            return res;
+        }
+    };
+    t.a.keep_log = keep_log;
+    for st in steps.iter() {
+        t.apply(st);
+    }
+    finish(t, &mut res);
+    res
 }
